@@ -18,6 +18,9 @@ type Fact struct {
 	Tag   ast.Expr // non-nil for a case of an expression switch: means Tag == Expr
 	Truth bool
 	Edge  *GNode
+	// Unless, when non-nil, is a pointer expression p such that the fact is only known when p != nil
+	// (it stems from the false edge of `p != nil && B`, which gives: p == nil or not B).
+	Unless ast.Expr
 }
 
 func unparen(e ast.Expr) ast.Expr {
@@ -51,6 +54,28 @@ func decompose(cond ast.Expr, truth bool, edge *GNode, out *[]Fact) {
 		if c.Op == token.LOR && !truth {
 			decompose(c.X, false, edge, out)
 			decompose(c.Y, false, edge, out)
+			return
+		}
+		if c.Op == token.LAND && !truth {
+			// not (p != nil && B)  ==  p == nil  or  not B : B is refuted whenever p is non-nil
+			if bx, ok := unparen(c.X).(*ast.BinaryExpr); ok && bx.Op == token.NEQ {
+				var p ast.Expr
+				if id, ok := unparen(bx.Y).(*ast.Ident); ok && id.Name == "nil" {
+					p = bx.X
+				} else if id, ok := unparen(bx.X).(*ast.Ident); ok && id.Name == "nil" {
+					p = bx.Y
+				}
+				if p != nil {
+					var sub []Fact
+					decompose(c.Y, false, edge, &sub)
+					for _, f := range sub {
+						if f.Unless == nil {
+							f.Unless = unparen(p)
+							*out = append(*out, f)
+						}
+					}
+				}
+			}
 			return
 		}
 		if c.Op == token.LAND || c.Op == token.LOR {
@@ -251,7 +276,7 @@ func NilCompare(info *types.Info, e ast.Expr) (x ast.Expr, eq bool, ok bool) {
 func (g *Graph) KnownNonNil(n *GNode, obj types.Object) bool {
 	info := g.Fn.Pkg.TypesInfo
 	for _, f := range g.FactsAt(n) {
-		if f.Tag != nil {
+		if f.Tag != nil || f.Unless != nil {
 			continue
 		}
 		x, eq, ok := NilCompare(info, f.Expr)
